@@ -27,8 +27,9 @@ import fnmatch
 import multiprocessing as mp
 
 VERIF = os.path.dirname(os.path.dirname(os.path.abspath(__file__)))
-EVIDENCE_DIR = os.path.join(VERIF, "evidence")
-REPLAY_DIR = os.path.join(VERIF, "replay")
+# runs against a scratch tree (tools/seedtest.sh sets VERIF_OUT) keep their evidence / replay files away from /verif's own
+EVIDENCE_DIR = os.path.join(os.environ.get("VERIF_OUT", VERIF), "evidence")
+REPLAY_DIR = os.path.join(os.environ.get("VERIF_OUT", VERIF), "replay")
 KNOWN_FILE = os.path.join(VERIF, "known_findings.jsonl")
 
 NPROC = int(os.environ.get("VERIF_NPROC", "16"))
